@@ -1,10 +1,10 @@
 """Topology family (C15): connect / disconnect / destroy / drop histories interleaved with emissions on real nodes.
 
 case = {"ops": [["new", kind, [ups]], ["emit", n, int], ["connect", u, d], ["disconnect", u, d], ["destroy", n], ["drop", n]]}
-kinds: pipe | sink | zip | combine | rsink
+kinds: pipe | sink | zip | combine | combine_on | combine_on0 | rsink
  ["remit", n, x, t, edit]: emit x at node n; when the reactive sink t (kind rsink) is handed x it performs `edit`
  (["connect", u, d] | ["disconnect", u, d] | ["destroy", m]) from INSIDE its callback, i.e. while the element is being
- delivered (oracle only: the Coq topology model has no step inside an emission)
+ delivered (Coq: ORemit / rdeliver in Sync/Topology.v)
 """
 import gc
 import logging
